@@ -14,9 +14,10 @@ Model-free oracle (the property itself):
           raised
   opcode  pickletools.genops over opcode.encode() yields that opcode with that argument and nothing is
           left over, or encode() raised
-The model describes the REPAIRED Int/ConstantInt.validate (notes/fix_int_validate.patch).  On a tree
-without the patch every disagreement must disappear when exactly those two validators are wrapped with
-the repaired type test; it is then reported as known finding D7 (signature int-validate-coerces)."""
+The model describes the tree with D7 (Int/ConstantInt.validate) and the D13 encoder repairs applied; all
+C15 entries of KNOWN_FINDINGS.jsonl are "fixed", so any of those defects showing up again is a VIOLATION.
+(On a tree without the D7 repair every disagreement that disappears when exactly those two validators are
+wrapped with the repaired type test is attributed to signature int-validate-coerces.)"""
 import contextlib
 import io
 import json
@@ -485,7 +486,9 @@ def enc_cases(rng, n_extra):
     """(class name, how, argument) for every Opcode subclass of the live module"""
     from fickling import fickle
     ints = [0, 1, 2, 5, 127, 128, 255, 256, 65535, 65536, 2 ** 31 - 1, 2 ** 31, 2 ** 32, -1, -5, -128, -129,
-            -2 ** 31, -2 ** 31 - 1, 321987, 10 ** 20]
+            -2 ** 31, -2 ** 31 - 1, 321987, 10 ** 20,
+            # LONG1 count boundary: payloads of 127, 128, 255 and 256 bytes
+            2 ** 1007, 2 ** 1015, -2 ** 1015, -2 ** 1015 - 1, 2 ** 2031, 2 ** 2039, -2 ** 2039, -2 ** 2039 - 1]
     texts = ["", "abc", "a b", "123", "é", "€", "\U0001f600", "a\nb", "a\rb", "a\\b", "\\u0041", "\x00\x1f", "\x7f",
              "\x80", "it's", 'say "x"', "x" * 255, "x" * 256, "é" * 128, "\ud800", "a\udc80b", "\ud83d\ude00",
              "\t", "'\"", "\xff\x00", "\x1a", "\\U0001f600", "ends\\", "\u0100\uffff\U00010000\U0010ffff"]
